@@ -178,7 +178,10 @@ def run_program(prog, chooser, seed, line_budget=0, cut_w2i=None, remote_backend
                 if mode in ("callback_late", "callback_mid"):
                     pr.em_i.sleep(0.5)  # lets items queue up first (virtual time)
                 if mode == "callback_mid":
-                    ch.send("go")       # the rest arrives while setcallback replays the queue
+                    try:
+                        ch.send("go")   # the rest arrives while setcallback replays the queue
+                    except OSError:
+                        o["go_refused"] = True   # connection already lost
                 END = ("END",)
                 ch.setcallback(lambda x: o["got"].append(x), endmarker=END)
                 try:
@@ -236,7 +239,11 @@ def run_program(prog, chooser, seed, line_budget=0, cut_w2i=None, remote_backend
             consume(c, ch, o)
         elif k == "consume":
             for x in c["items"]:
-                ch.send(x)
+                try:
+                    ch.send(x)
+                except OSError:
+                    o["send_refused"] = True   # connection lost meanwhile
+                    break
             try:
                 o["summary"] = ch.receive(timeout=20)
             except Exception as e:  # noqa
@@ -253,7 +260,11 @@ def run_program(prog, chooser, seed, line_budget=0, cut_w2i=None, remote_backend
                 o["send_after_close"] = "OSError"
         elif k == "consume_eof":
             for x in c["items"]:
-                ch.send(x)
+                try:
+                    ch.send(x)
+                except OSError:
+                    o["send_refused"] = True
+                    break
             if c["end"] == "close":
                 ch.close()
                 o["isclosed"] = ch.isclosed()
